@@ -429,6 +429,10 @@ func checkC06(c *Ctx) {
 		return
 	}
 	c.Analysed(FuncName(translate))
+	if translate.Signature.Results().Len() != 2 {
+		c.Bad(G1, FuncName(translate), "translation can refuse", m.Pos(translate.Pos()), "the translation of the agreed node list into parties no longer returns an error: a party represented by two selected nodes cannot be refused, the backend is initialised with a duplicated party identifier")
+		return
+	}
 	nApp := 0
 	var usedLookup *ssa.Lookup
 	for _, in := range instrsOf(translate) {
